@@ -18,7 +18,7 @@ func init() {
 		Run: runC12,
 		Explanation: "Static decision of the capacity-accounting structure of the master topology: (1) FIELDS-usage: addDiskUsageCounts, minus and negative touch every counter of DiskUsageCounts with one uniform operation; (2) DELTA: a delta applied inside a loop is per-iteration — no scalar stored into a delta depends on a loop-carried accumulator, and the delta object handed to UpAdjustDiskUsageDelta is allocated in the same iteration; " +
 			"(3) PAIR: every removal from / insertion into Disk.volumes and every change of a disk's EC shard bits is followed on all paths by UpAdjustDiskUsageDelta; (4) MIRROR: the counters decremented when a volume disappears are exactly the counters incremented when it is added, under the same conditions (remote, not read-only); (5) PROV-ec-delta: the EC shard delta is the shard count of the message only for a newly registered volume, otherwise the difference of the registered set's count after and before; " +
-			"(6) the delta is added at the node and forwarded to the parent; linking / unlinking a child adds / subtracts the child's usages. Equality of the counters with a recount over histories is not decided.",
+			"(6) the delta is added at the node and forwarded to the parent; linking / unlinking a child adds / subtracts the child's usages. Equality of the counters with a recount over histories is not decided. Also decided: a registered volume that changes tier adjusts the remote count in both directions and propagates it; removals are accounted with the registered volume info (flags from the stored info, nothing decremented for an unregistered volume).",
 		Assumptions: []string{"DiskUsages values passed to UpAdjustDiskUsageDelta are not retained by the callee"},
 		Trusted:     baseTrusted,
 	})
@@ -312,7 +312,10 @@ func runC12(c *eng.Ctx) {
 		c.Ob("GUARD-registered", eng.FuncName(fn)+" flags-of-registered-info", okSrc && nFlags > 0, decs[0].Pos(), "the remote flag that decides the remote-count decrement is read from the registered volume info, not from the heartbeat message")
 		// when the info comes from a lookup, nothing is decremented for a volume that is not registered
 		var lookups []ssa.Instruction
-		for _, in := range eng.Find(fn, func(in ssa.Instruction) bool { lk, ok := in.(*ssa.Lookup); return ok && lk.CommaOk && eng.IsField(lk.X, "Disk.volumes") }) {
+		for _, in := range eng.Find(fn, func(in ssa.Instruction) bool {
+			lk, ok := in.(*ssa.Lookup)
+			return ok && lk.CommaOk && eng.IsField(lk.X, "Disk.volumes")
+		}) {
 			lookups = append(lookups, in)
 		}
 		if len(lookups) > 0 {
